@@ -150,10 +150,26 @@ def writer_items(eff: Effects):
                                                      or isinstance(node.value, ast.Constant) and node.value.value is None)
         writers = {q for q, recv, node, cls in eff.writers_of(field) if not q.startswith("fortls.debug")
                    and q.startswith(P) and not (empties(node) and q not in allowed)}
-        extra = sorted(writers - allowed)
+        extra = set(writers - allowed)
+        # a private helper that only reviewed writers call is part of them (a block moved into a method)
+        callers = {}
+        for q2, fe2 in eff.funcs.items():
+            for callee, _node in fe2.calls:
+                callers.setdefault(callee, set()).add(q2)
+        changed = True
+        accepted = set()
+        while changed:
+            changed = False
+            for w in sorted(extra - accepted):
+                cs = callers.get(w, set()) - {w}
+                if cs and w.rsplit(".", 1)[-1].startswith("_") and cs <= (allowed | accepted):
+                    accepted.add(w)
+                    changed = True
+        extra = sorted(extra - accepted)
         items.append(term.item(f"C20/heap/shape.tree_writers[{field}]", not extra,
-                               f"writers of .{field}: {sorted(short(w) for w in writers)} are the reviewed tree builders",
-                               witness={"field": field, "unreviewed_writers": extra}))
+                               f"writers of .{field}: {sorted(short(w) for w in writers)} are the reviewed tree builders"
+                               + (f" (helpers called only by them: {sorted(short(w) for w in accepted)})" if accepted else ""),
+                               witness={"field": field, "unreviewed_writers": extra}, shape=True))
     return items
 
 
@@ -269,14 +285,31 @@ def cycle_items(eff: Effects, repo):
         elif meas["kind"] == "version":
             fi = repo.func(full("type.Type.resolve_inherit"))
             body = [s for s in fi.node.body if not isinstance(s, ast.Expr) or not isinstance(s.value, ast.Constant)]
+            # named conditions (`already = self.v == v` before the test) are read through
+            named = {}
+            while body and isinstance(body[0], (ast.Assign, ast.AnnAssign)) and not isinstance(body[0].value, (ast.Call, ast.Await)) \
+                    and isinstance(body[0].targets[0] if isinstance(body[0], ast.Assign) else body[0].target, ast.Name) \
+                    and not any(isinstance(x, ast.Call) for x in ast.walk(body[0].value)):
+                tg = body[0].targets[0] if isinstance(body[0], ast.Assign) else body[0].target
+                named[tg.id] = ast.unparse(body[0].value)
+                body = body[1:]
             g = body[0] if body else None
-            guard_ok = (isinstance(g, ast.If) and isinstance(g.body[-1], ast.Return)
-                        and f"self.{meas['field']} == {meas['arg']}" in ast.unparse(g.test))
+            test_txt = ""
+            if isinstance(g, ast.If):
+                import copy as _copy
+                tcopy = _copy.deepcopy(g.test)
+                for x in ast.walk(tcopy):
+                    if isinstance(x, ast.Name) and x.id in named:
+                        x.id = "(" + named[x.id] + ")"
+                test_txt = ast.unparse(tcopy)
+            guard_ok = (isinstance(g, ast.If) and isinstance(g.body[-1], ast.Return) and isinstance(g.test, (ast.BoolOp, ast.Compare, ast.Name))
+                        and not (isinstance(g.test, ast.BoolOp) and isinstance(g.test.op, ast.And))
+                        and f"self.{meas['field']} == {meas['arg']}" in test_txt)
             set_ok = len(body) > 1 and ast.unparse(body[1]) == f"self.{meas['field']} = {meas['arg']}"
             items.append(term.item("C20/type.Type.resolve_inherit/decreases.version_guard", guard_ok and set_ok,
                                    f"first statements: early return when self.{meas['field']} == {meas['arg']}, then the "
                                    "field is set before anything else runs (each type is entered once per version)",
-                                   fi.where(), func=fi.qualname,
+                                   fi.where(), func=fi.qualname, shape=True,
                                    witness={"first_statements": [ast.unparse(s)[:100] for s in body[:2]]}))
             for caller, callee, node in calls:
                 same_version = any(ast.unparse(a) == meas["arg"] for a in node.args)
